@@ -155,3 +155,31 @@ modelled! {
         std::mem::forget(val); std::mem::forget(report);
     }
 }
+
+modelled! {
+    #[kani::unwind(16)]
+    #[kani::stub(alloc::string::String::push, crate::model::st_string_push_ascii)]
+    fn c05_d_string_two_unicode_escapes() {
+        // "\u{4X}\u{4Y}": two characters U+004X, U+004Y (each escape starts afresh)
+        reset_report_model();
+        let hex = |k: u8| -> u8 { if k < 10 { b'0' + k } else { b'a' + (k - 10) } };
+        let (x, y): (u8, u8) = (kani::any(), kani::any());
+        kani::assume(x < 16 && y < 16);
+        let mut buf = *b"\"\\u{40}\\u{40}\"";
+        buf[5] = hex(x);
+        buf[11] = hex(y);
+        let text = unsafe { std::str::from_utf8_unchecked(&buf) };
+        let mut report = diagn::Report::new();
+        let r = syntax::excerpt_as_string_contents(&mut report, sp(), text);
+        match r {
+            Ok(ref s) => {
+                assert!(s.len() == 2, "two one-byte characters expected");
+                assert!(s.as_bytes()[0] == 0x40 + x && s.as_bytes()[1] == 0x40 + y, "escape decoded to a different character");
+                assert!(errs(&report) == 0);
+                kani::cover!(x == 1 && y == 2, "AB");
+            }
+            Err(()) => assert!(false, "valid escapes rejected"),
+        }
+        std::mem::forget(r); std::mem::forget(report);
+    }
+}
